@@ -1,43 +1,60 @@
 ---------------------------- MODULE RateLimit ----------------------------
-(* Token-bucket rate limiter of nauyaca (TokenBucket + RateLimiter + _cleanup_loop).
-   Time in grid ticks (1 tick = 4 s); tokens in units of 1/D so all arithmetic is exact. *)
+(* Token-bucket rate limiter of nauyaca (middleware.TokenBucket + RateLimiter + _cleanup_loop).
+   Time in grid ticks (1 tick = 4 s, so that 300 s / 600 s are 75 / 150 ticks); tokens in units of
+   1/par.d so all arithmetic is exact (the replay uses dyadic rates, for which the implementation's
+   floats are exact too).  One action per call / wake-up:
+     Advance(d)   virtual time passes (never across a clean-up wake-up)
+     Request(i)   RateLimiter.process_request for address i: lazy refill, min(capacity, .), consume
+     Cleanup      the _cleanup_loop wakes up (every CleanEvery) and evicts idle buckets
+   Ghost state: ref (the same buckets with no eviction at all), admits (admission times).        *)
 EXTENDS Integers, Sequences, FiniteSets, TLC
-CONSTANTS IPs, Cap, R, D,        \* refill = R/D tokens per tick
+CONSTANTS IPs,
+          Params,                \* set of [cap, r, d]: capacity, refill = r/d tokens per tick
           Steps,                 \* allowed time advances (ticks)
           CleanEvery, IdleAge,   \* 75, 150 ticks  (300 s, 600 s)
           MaxTime, MaxReq,
-          EvictRegardless        \* deviation: current code evicts idle buckets whatever their level
-VARIABLES now, nextClean, bucket, ref, admits, nreq, lastDec
-vars == <<now, nextClean, bucket, ref, admits, nreq, lastDec>>
+          EvictRegardless        \* deviation: evict idle buckets whatever their level (tree before the fix)
+VARIABLES par, now, nextClean, bucket, ref, admits, nreq, lastDec
+vars == <<par, now, nextClean, bucket, ref, admits, nreq, lastDec>>
+Cap == par.cap
+R == par.r
+D == par.d
 Absent == [present |-> FALSE, tok |-> 0, last |-> 0]
 Min(a, b) == IF a < b THEN a ELSE b
-Level(b, t) == IF b.present THEN Min(Cap * D, b.tok + (t - b.last) * R) ELSE Cap * D   \* tokens available at time t
+Level(b, t) == IF b.present THEN Min(Cap * D, b.tok + (t - b.last) * R) ELSE Cap * D   \* tokens (x D) available at time t
 Consume(b, t) == LET lv == Level(b, t) IN
    IF lv >= D THEN [ok |-> TRUE,  b |-> [present |-> TRUE, tok |-> lv - D, last |-> t]]
               ELSE [ok |-> FALSE, b |-> [present |-> TRUE, tok |-> lv,     last |-> t]]
-Init == now = 0 /\ nextClean = CleanEvery /\ bucket = [i \in IPs |-> Absent] /\ ref = [i \in IPs |-> Absent]
-        /\ admits = [i \in IPs |-> <<>>] /\ nreq = 0 /\ lastDec = [real |-> TRUE, ref |-> TRUE]
-Advance(d) == /\ now + d <= nextClean /\ now + d <= MaxTime /\ now' = now + d
-              /\ UNCHANGED <<nextClean, bucket, ref, admits, nreq, lastDec>>
-Request(i) == /\ nreq < MaxReq /\ nreq' = nreq + 1
+InitWith(p) == /\ par = p /\ now = 0 /\ nextClean = CleanEvery
+               /\ bucket = [i \in IPs |-> Absent] /\ ref = [i \in IPs |-> Absent]
+               /\ admits = [i \in IPs |-> <<>>] /\ nreq = 0 /\ lastDec = [ip |-> "-", real |-> TRUE, ref |-> TRUE]
+Init == \E p \in Params : InitWith(p)
+\* the clean-up task wakes before anything else that happens at the same instant
+Advance(d) == /\ now < nextClean /\ now + d <= nextClean /\ now + d <= MaxTime /\ now' = now + d
+              /\ UNCHANGED <<par, nextClean, bucket, ref, admits, nreq, lastDec>>
+Request(i) == /\ now < nextClean /\ nreq < MaxReq /\ nreq' = nreq + 1
               /\ LET c == Consume(bucket[i], now)  cr == Consume(ref[i], now) IN
                    /\ bucket' = [bucket EXCEPT ![i] = c.b] /\ ref' = [ref EXCEPT ![i] = cr.b]
                    /\ admits' = [admits EXCEPT ![i] = IF c.ok THEN Append(@, now) ELSE @]
-                   /\ lastDec' = [real |-> c.ok, ref |-> cr.ok]
-              /\ UNCHANGED <<now, nextClean>>
+                   /\ lastDec' = [ip |-> i, real |-> c.ok, ref |-> cr.ok]
+              /\ UNCHANGED <<par, now, nextClean>>
 Cleanup == /\ now = nextClean /\ nextClean' = nextClean + CleanEvery
            /\ bucket' = [i \in IPs |->
                  IF bucket[i].present /\ now - bucket[i].last > IdleAge
                     /\ (EvictRegardless \/ Level(bucket[i], now) = Cap * D)
                  THEN Absent ELSE bucket[i]]
-           /\ UNCHANGED <<now, ref, admits, nreq, lastDec>>
+           /\ UNCHANGED <<par, now, ref, admits, nreq, lastDec>>
 Next == (\E d \in Steps : Advance(d)) \/ (\E i \in IPs : Request(i)) \/ Cleanup
 Spec == Init /\ [][Next]_vars
 \* ---- properties (C10) ----
+\* clean-up never hands an address more allowance than it would have had without it
 CleanupInvisible == \A i \in IPs : Level(bucket[i], now) <= Level(ref[i], now)
+\* a refusal only when the allowance (without any clean-up) is exhausted; an admission only when it is not
 SameDecision == lastDec.real = lastDec.ref
 \* admitted in any window [a_j, a_k] never exceeds Cap + rate * length   (scaled by D)
 Window == \A i \in IPs : \A j, k \in 1..Len(admits[i]) :
             j <= k => (k - j + 1) * D <= Cap * D + R * (admits[i][k] - admits[i][j])
-Isolation == [][\A i \in IPs : (\E j \in IPs : j # i /\ nreq' = nreq + 1 /\ bucket'[j] # bucket[j]) => bucket'[i] = bucket[i]]_vars
+\* traffic from one address never alters another address's bucket
+Isolation == [][\A i \in IPs : (nreq' = nreq + 1 /\ lastDec'.ip # i) => bucket'[i] = bucket[i]]_vars
+TypeOK == /\ now \in 0..MaxTime /\ \A i \in IPs : bucket[i].tok \in 0..(Cap * D)
 =============================================================================
